@@ -1724,8 +1724,7 @@ def signature(f: ast.FunctionDef, where: str, method: bool):
 
 def define(w: World, f: ast.FunctionDef, where: str, coqname: str, params, rtype, selfty, globals_, parse_action):
     strip_doc(f)
-    fn = SynFn(w, f, where, globals_, parse_action)
-    body, mon, rty = fn.translate(params, rtype, selfty)
+    body, mon, rty = P.with_fallback(f, lambda fd: SynFn(w, fd, where, globals_, parse_action).translate(params, rtype, selfty))
     ps = ([("self", selfty)] if selfty else []) + [(cid(n), t) for n, t, _ in params]
     sig = " ".join(f"({n} : {coqty(t)})" for n, t in ps)
     r = coqty(rty)
